@@ -610,6 +610,12 @@ def ref_program(rng, pid, horizon):
         if rng.random() < 0.3:
             nodes[-1]["mode"] = "all"
     targets = list(range(1, ntg + 1))
+    if rng.random() < 0.4:   # two targets that are positions of ONE node's list output
+        nodes.append(P.node("elem0", ins=[1, 2]))
+        nodes[-1]["pack"] = 1
+        nodes.append(P.node("elem1", ins=[1, 2]))
+        nodes[-1]["pack"] = 1
+        targets = [len(nodes) - 1, len(nodes)] + targets[2:]
     if rng.random() < 0.4:   # a computed target
         nodes.append(P.node(rng.choice(["acc", "add", "delay"]), ins=[rng.choice(targets)], k=rng.randint(1, 2)))
         targets.append(len(nodes))
@@ -634,7 +640,11 @@ def ref_program(rng, pid, horizon):
     nodes.append(P.node("rec", ins=[len(nodes)]))
     nodes.append(P.node("rec", ins=[ref]))
     k = rng.choice(["pass", "acc", "sumu", "sample", "delay"])
-    if k in ("sumu", "sample"):
+    if k == "sumu":
+        # the reference is the validity-checked input: a forwarding output re-pointed to a target WITHOUT a value reports
+        # modified && !valid (nested presentations), which only an unchecked consumer can see; C13 speaks of valid targets
+        nodes.append(P.node(k, ins=[ref, rng.choice(targets)]))
+    elif k == "sample":
         nodes.append(P.node(k, ins=[ref, rng.choice(targets)] if rng.random() < 0.5 else [rng.choice(targets), ref]))
     else:
         nodes.append(P.node(k, ins=[ref], k=1))
@@ -658,6 +668,8 @@ def check_c13(chk, rng):
         # chaining it into another selector outside would compare "unpublished reference" (inlined) with "invalid
         # time-series" (nested), a typing difference rather than a behaviour of references - not presented
         gs = [g for g in gs if not (g[2] in refs and any(g[2] in p["nodes"][r - 1]["ins"] for r in refs if r not in g[0]))]
+        # ... and the same in the other direction: a selector inside the sub-graph reading a reference made outside
+        gs = [g for g in gs if not any(j in refs and j not in g[0] for r in refs if r in g[0] for j in p["nodes"][r - 1]["ins"])]
         rng.shuffle(gs)
         for g in gs[:2]:
             cases.append(Case(p, preds[p["id"]], P.render(p, group=g, mode="nested", depth=rng.choice([1, 1, 2])), "nested"))
